@@ -234,28 +234,60 @@ func ruleC12Body(p *Prog, a *Anchors, r *Report) {
 // ruleArgScope: the arguments of a scoping construct (with-pairs, loop sequence, macro defaults, Super) are evaluated
 // in the enclosing context, never in the child context the construct creates for its body.
 func ruleArgScope(p *Prog, a *Anchors, r *Report, rule string) {
-	r.Begin(rule, "argument expressions of for/with/macro call/block.Super (and any filter arguments inside them) are evaluated in the enclosing execution context, not in the child context the construct creates", 3)
+	r.Begin(rule, "argument expressions of for/with/macro call/block.Super (and any filter arguments inside them) are evaluated in the enclosing execution context, not in the child context the construct creates", 2)
+	ctxPtr := types.NewPointer(a.ExecCtx)
+	evalCtxArgs := func(g *ssa.Function) (out []*ssa.Call) {
+		for _, b := range g.Blocks {
+			for _, in := range b.Instrs {
+				c, ok := in.(*ssa.Call)
+				if !ok || !c.Common().IsInvoke() || c.Common().Method.Name() != "Evaluate" || len(c.Common().Args) != 1 {
+					continue
+				}
+				if types.Identical(c.Common().Args[0].Type(), ctxPtr) {
+					out = append(out, c)
+				}
+			}
+		}
+		return
+	}
 	for _, name := range scopingConstructList {
 		f := p.Func(name)
 		if f == nil {
 			r.Unk(name, "-", "anchor unresolved: scoping construct %s", name)
 			continue
 		}
+		key := name + ":arg-scope"
+		judge := func(at ssa.Instruction, ctx ssa.Value, via string) {
+			if rs := p.Roots(ctx); allFresh(rs) {
+				r.Bad(key, p.InstrPos(at), "an argument expression of the construct is evaluated%s in the child context the construct creates (%s): it sees the construct's own bindings instead of the enclosing scope (with x=1 y=v|add:x would use the new x, in map order; an inner loop's sequence would see the inner forloop)", via, rootsString(rs))
+			} else {
+				r.OK(key, p.InstrPos(at), "argument expression evaluated%s in the enclosing context", via)
+			}
+		}
 		for _, g := range withClosures(f) {
+			for _, c := range evalCtxArgs(g) {
+				judge(c, c.Common().Args[0], "")
+			}
+			// helpers of the construct that evaluate with a context they are handed: judged by what is handed
 			for _, b := range g.Blocks {
 				for _, in := range b.Instrs {
-					c, ok := in.(*ssa.Call)
-					if !ok || !c.Common().IsInvoke() || c.Common().Method.Name() != "Evaluate" || len(c.Common().Args) != 1 {
+					ci, ok := in.(ssa.CallInstruction)
+					if !ok {
 						continue
 					}
-					if !types.Identical(c.Common().Args[0].Type(), types.NewPointer(a.ExecCtx)) {
+					h := ci.Common().StaticCallee()
+					if h == nil || !p.InPkg(h) || h.Blocks == nil || h.Name() == "Execute" || h == f {
 						continue
 					}
-					key := name + ":arg-scope"
-					if rs := p.Roots(c.Common().Args[0]); allFresh(rs) {
-						r.Bad(key, p.InstrPos(in), "an argument expression of the construct is evaluated in the child context the construct creates (%s): it sees the construct's own bindings instead of the enclosing scope (with x=1 y=v|add:x would use the new x, in map order; an inner loop's sequence would see the inner forloop)", rootsString(rs))
-					} else {
-						r.OK(key, p.InstrPos(in), "argument expression evaluated in the enclosing context")
+					for _, c := range evalCtxArgs(h) {
+						pa, isParam := c.Common().Args[0].(*ssa.Parameter)
+						if !isParam {
+							continue
+						}
+						args := callArgs(ci.Common())
+						if idx := indexOfParam(h, pa); idx >= 0 && idx < len(args) {
+							judge(in, args[idx], " (in "+h.Name()+")")
+						}
 					}
 				}
 			}
